@@ -38,8 +38,12 @@ type osDev struct {
 	seeked  bool
 	opName  string
 	rel     string
-	ro      bool // judging a crash image: mutations are refused silently and flagged
-	wrote   bool
+	cow     bool // judging a crash image: buf is shared with the image enumerator; the first mutation copies it
+	wrote   bool // some mutation was issued (evidence only: the statement does not forbid a repairing re-open)
+	// what the calls so far could have learnt about the bytes: the furthest byte read and whether
+	// the size was asked for (SeekEnd, Stat) - measured, for the Load-reuse argument of memJudge
+	maxRead   int64
+	sizeAsked bool
 }
 
 var (
@@ -71,10 +75,17 @@ func (d *osDev) Read(p []byte) (int, error) {
 		return 0, nil
 	}
 	if d.pos >= int64(len(d.buf)) {
+		d.sizeAsked = true // an EOF answer tells where the file ends
 		return 0, io.EOF
 	}
 	n := copy(p, d.buf[d.pos:])
 	d.pos += int64(n)
+	if n < len(p) {
+		d.sizeAsked = true // a short read tells where the file ends
+	}
+	if d.pos > d.maxRead {
+		d.maxRead = d.pos
+	}
 	return n, nil
 }
 
@@ -84,10 +95,15 @@ func (d *osDev) ReadAt(p []byte, off int64) (int, error) {
 		return 0, errors.New("c15.osDev: negative offset")
 	}
 	if off >= int64(len(d.buf)) {
+		d.sizeAsked = true // an EOF answer tells where the file ends
 		return 0, io.EOF
 	}
 	n := copy(p, d.buf[off:])
+	if off+int64(n) > d.maxRead {
+		d.maxRead = off + int64(n)
+	}
 	if n < len(p) {
+		d.sizeAsked = true
 		return n, io.EOF
 	}
 	return n, nil
@@ -111,14 +127,19 @@ func (d *osDev) resize(size int64) {
 	}
 }
 
+// private detaches a copy-on-write device from the shared image before the first mutation.
+func (d *osDev) private() {
+	d.wrote = true
+	if d.cow {
+		d.buf, d.cow = append([]byte(nil), d.buf...), false
+	}
+}
+
 func (d *osDev) put(p []byte, off int64) error {
 	if off+int64(len(p)) > regionx.DevLimit {
 		return errOsDevFull
 	}
-	if d.ro {
-		d.wrote = true
-		return nil
-	}
+	d.private()
 	if d.logging {
 		d.ops = append(d.ops, physOp{Off: off, Data: append([]byte(nil), p...)})
 	}
@@ -160,10 +181,7 @@ func (d *osDev) Truncate(size int64) error {
 	if size > regionx.DevLimit {
 		return errOsDevFull
 	}
-	if d.ro {
-		d.wrote = true
-		return nil
-	}
+	d.private()
 	if d.logging {
 		d.ops = append(d.ops, physOp{Trunc: true, Off: size})
 	}
@@ -185,6 +203,7 @@ func (m memInfo) Sys() any           { return nil }
 
 func (d *osDev) Stat() (os.FileInfo, error) {
 	atomic.AddInt64(&osCalls.stat, 1)
+	d.sizeAsked = true
 	return memInfo{int64(len(d.buf))}, nil
 }
 
@@ -199,6 +218,7 @@ func (d *osDev) Seek(off int64, whence int) (int64, error) {
 	case io.SeekEnd:
 		np = int64(len(d.buf)) + off
 		d.seeked = true
+		d.sizeAsked = true
 	default:
 		return 0, errors.New("c15.osDev: invalid whence")
 	}
